@@ -1,6 +1,292 @@
-import MotoModel.Model.Basic
-import MotoModel.Spec.BasicRef
+/-
+  C14 — tokenizing a listing never loses, duplicates or reorders program text.
+  Main theorem: `lossless` — for every ASCII line body, detokenizing what the tokenizer model
+  emits gives back the text, upper-cased outside string literals (C17's automaton).
+-/
+import MotoModel.Proofs.BasicDecode
+import MotoModel.Props.C17
 namespace Moto.C14
-open Moto Moto.Basic
-theorem placeholder : u16 0x25A4 = [0x25, 0xA4] := by decide
+open Moto Moto.Basic Moto.Spec
+
+theorem empty_not_token : isToken [] = false := by decide +kernel
+theorem quote_not_token : isToken [34] = false := by decide +kernel
+
+theorem single_no_colon (x : Nat) : requiresColon [x] = false := by
+  simp [requiresColon, Gen.Tokens.requireColon]
+
+/-- invariant outside a string literal; `T` is the text consumed so far, upper-cased outside literals -/
+structure InvOut (c : Ctx) (T : Str) : Prop where
+  done_closed : Closed false c.done false
+  text : D false c.done ++ D false c.cand ++ c.bucket = T
+  cand_ok : c.cand = [] ∨ ∃ k, isToken k = true ∧ c.cand = tokenBytes k
+  bucket_ok : ∀ x ∈ c.bucket, x < 128 ∧ x ≠ 34
+  seq_ok : c.seq = D false c.cand ++ c.bucket
+
+/-- invariant inside a string literal -/
+structure InvIn (c : Ctx) (T : Str) : Prop where
+  done_closed : Closed false c.done true
+  cand_nil : c.cand = []
+  text : D false c.done ++ c.bucket = T
+  bucket_ok : ∀ x ∈ c.bucket, x < 128 ∧ x ≠ 34
+
+theorem decode_nil (b : Bool) : D b [] = [] := by simp [D, BasicRef.decode]
+
+theorem cand_closed (c : Ctx) (h : c.cand = [] ∨ ∃ k, isToken k = true ∧ c.cand = tokenBytes k) :
+    Closed false c.cand false ∧ c.cand.head? ≠ some 0x8F := by
+  rcases h with h | ⟨k, hk, h⟩
+  · rw [h]; exact ⟨closed_nil false, by simp⟩
+  · rw [h]; have := closed_token k hk; exact ⟨this.1, this.2.2.1⟩
+
+theorem text_head (t : Str) (h : ∀ x ∈ t, x < 128 ∧ x ≠ 34) : t.head? ≠ some 0x8F := by
+  cases t with
+  | nil => simp
+  | cons a as => have := (h a (by simp)).1; simp; omega
+
+/-- `commit` outside a literal: everything pending becomes closed output -/
+theorem commit_out' (c : Ctx) (T : Str) (hd : Closed false c.done false) (ht : D false c.done ++ D false c.cand ++ c.bucket = T)
+    (hc : c.cand = [] ∨ ∃ k, isToken k = true ∧ c.cand = tokenBytes k) (hb : ∀ x ∈ c.bucket, x < 128 ∧ x ≠ 34) :
+    Closed false (commit c).done false ∧ D false (commit c).done = T ∧ (commit c).cand = [] ∧ (commit c).bucket = [] ∧ (commit c).seq = [] := by
+  obtain ⟨hcc, hch⟩ := cand_closed c hc
+  obtain ⟨hbc, hbd⟩ := closed_text c.bucket hb
+  have hbh := text_head c.bucket hb
+  have hcb : Closed false (c.cand ++ c.bucket) false := closed_append hcc hbc hbh
+  have hcbh : (c.cand ++ c.bucket).head? ≠ some 0x8F := by
+    cases hcand : c.cand with
+    | nil => simpa using hbh
+    | cons a as => rw [hcand] at hch; simpa using hch
+  refine ⟨?_, ?_, rfl, rfl, rfl⟩
+  · show Closed false (c.done ++ c.cand ++ c.bucket) false
+    rw [List.append_assoc]; exact closed_append hd hcb hcbh
+  · show D false (c.done ++ c.cand ++ c.bucket) = T
+    rw [List.append_assoc, hd _ hcbh, hcc _ hbh, hbd, ← List.append_assoc]; exact ht
+
+theorem commit_out (c : Ctx) (T : Str) (h : InvOut c T) :
+    Closed false (commit c).done false ∧ D false (commit c).done = T ∧ (commit c).cand = [] ∧ (commit c).bucket = [] ∧ (commit c).seq = [] :=
+  commit_out' c T h.done_closed h.text h.cand_ok h.bucket_ok
+
+theorem invOut_of_commit' (c : Ctx) (T : Str) (hd : Closed false c.done false) (ht : D false c.done ++ D false c.cand ++ c.bucket = T)
+    (hc : c.cand = [] ∨ ∃ k, isToken k = true ∧ c.cand = tokenBytes k) (hb : ∀ x ∈ c.bucket, x < 128 ∧ x ≠ 34) : InvOut (commit c) T := by
+  obtain ⟨h1, h2, h3, h4, h5⟩ := commit_out' c T hd ht hc hb
+  exact ⟨h1, by rw [h3, h4, h2]; simp [decode_nil], Or.inl h3, by rw [h4]; simp, by rw [h5, h3, h4]; simp [decode_nil]⟩
+
+theorem invOut_of_commit (c : Ctx) (T : Str) (h : InvOut c T) : InvOut (commit c) T :=
+  invOut_of_commit' c T h.done_closed h.text h.cand_ok h.bucket_ok
+
+/-- one `appendAsToken` of an ASCII non-quote character keeps the invariant -/
+theorem step_token (x : Nat) (hx : x < 128) (hq : x ≠ 34) (fuel : Nat) :
+    ∀ (c : Ctx) (T : Str), InvOut c T → (if isToken c.bucket then 2 else 1) ≤ fuel →
+      InvOut (appendAsTokenFuel fuel c [x]) (T ++ [x]) := by
+  induction fuel with
+  | zero => intro c T _ hf; split at hf <;> omega
+  | succ f ih =>
+    intro c T h hf
+    obtain ⟨hd, ht, hc, hb, hs⟩ := h
+    simp only [appendAsTokenFuel]
+    by_cases h1 : isToken (c.seq ++ [x]) = true
+    · -- the whole sequence is a keyword: it replaces what was pending
+      simp only [h1, if_true]
+      obtain ⟨_, hdk, _, _⟩ := closed_token _ h1
+      refine ⟨hd, ?_, Or.inr ⟨_, h1, rfl⟩, by simp, by simp [hdk]⟩
+      simp only [hdk, List.append_nil]
+      rw [hs, ← ht]; simp [List.append_assoc]
+    · simp only [h1, Bool.false_eq_true, if_false]
+      by_cases h2 : isToken c.bucket = true
+      · -- the bucket is a keyword: flush what was pending, restart at this keyword, process x again
+        simp only [h2, if_true]
+        obtain ⟨hcc, hch⟩ := cand_closed c hc
+        obtain ⟨_, hdk, _, _⟩ := closed_token _ h2
+        have hf' : 1 ≤ f := by simp only [h2, if_true] at hf; omega
+        apply ih
+        · refine ⟨closed_append hd hcc hch, ?_, Or.inr ⟨_, h2, rfl⟩, by simp, by simp [hdk]⟩
+          simp only [hdk, List.append_nil]
+          rw [hd _ hch]; exact ht
+        · simp only [empty_not_token, Bool.false_eq_true, if_false]; exact hf'
+      · simp only [h2, Bool.false_eq_true, if_false]
+        by_cases h3 : isToken [x] = true
+        · -- a one-character operator: commit, emit its token, commit
+          simp only [h3, if_true]
+          have hI' : InvOut c T := ⟨hd, ht, hc, hb, hs⟩
+          obtain ⟨g1, g2, _, _, _⟩ := commit_out c T hI'
+          have hcm : commit { c with seq := c.seq ++ [x] } = commit c := rfl
+          rw [hcm]
+          have htb : bytesFromUint ((tokenOf [x]).getD 0) = tokenBytes [x] := by
+            simp [tokenBytes, single_no_colon]
+          obtain ⟨_, k2, _, _⟩ := closed_token [x] h3
+          apply invOut_of_commit' ⟨(commit c).done, [] ++ bytesFromUint ((tokenOf [x]).getD 0), [], []⟩ (T ++ [x]) g1
+          · simp only [htb, List.nil_append, k2, g2, List.append_nil]
+          · exact Or.inr ⟨[x], h3, by rw [htb]; rfl⟩
+          · intro y hy; cases hy
+        · -- plain character: goes to the bucket
+          simp only [h3, Bool.false_eq_true, if_false]
+          refine ⟨hd, ?_, hc, ?_, by simp [hs, List.append_assoc]⟩
+          · simp only; rw [← ht]; simp [List.append_assoc]
+          · intro y hy
+            simp only [List.mem_append, List.mem_singleton] at hy
+            rcases hy with hy | hy
+            · exact hb y hy
+            · subst hy; exact ⟨hx, hq⟩
+
+theorem fuel_ok (c : Ctx) : (if isToken c.bucket then 2 else 1) ≤ 3 := by split <;> omega
+
+theorem upperC_lt (ch : Nat) (h : ch < 128) : upperC ch < 128 := by unfold upperC; split <;> omega
+theorem upperC_ne_quote (ch : Nat) (h : ch ≠ 34) : upperC ch ≠ 34 := by
+  rw [Ne, C17.upperC_quote_iff]; exact h
+
+theorem special_fixed (ch : Nat) (h : isSpecial ch = true) : upperC ch = ch ∧ ch < 128 ∧ ch ≠ 34 := by
+  have : Gen.Tokens.specialChars = [46, 44, 40, 41, 58, 32] := C13.special_chars
+  simp only [isSpecial, this, List.contains_eq_mem, List.mem_cons, List.mem_singleton, List.not_mem_nil, or_false,
+    decide_eq_true_eq] at h
+  rcases h with h | h | h | h | h | h <;> subst h <;> decide
+
+/-- invariant of the character loop: `p` is the part of the line already consumed -/
+def Inv (st : Ctx × Bool) (p : Str) : Prop :=
+  if st.2 then InvIn st.1 (specUpper false p) ∧ litAfter false p = true
+  else InvOut st.1 (specUpper false p) ∧ litAfter false p = false
+
+theorem litAfter_append (b : Bool) (l1 l2 : Str) : litAfter b (l1 ++ l2) = litAfter (litAfter b l1) l2 := by
+  induction l1 generalizing b with
+  | nil => rfl
+  | cons c cs ih => simp [litAfter, ih]
+
+theorem parseChar_inv (st : Ctx × Bool) (p : Str) (ch : Nat) (hch : ch < 128) (h : Inv st p) :
+    Inv (parseChar st ch) (p ++ [ch]) := by
+  obtain ⟨c, inLit⟩ := st
+  cases inLit with
+  | false =>
+    simp only [Inv, Bool.false_eq_true, if_false] at h
+    obtain ⟨hI, hl⟩ := h
+    have hspec : specUpper false (p ++ [ch]) = specUpper false p ++ [if ch = 34 then ch else upperC ch] := by
+      rw [C17.spec_append, hl]; simp only [specUpper]; split <;> simp
+    simp only [parseChar]
+    by_cases hq : ch = 34
+    · -- opening quote
+      subst hq
+      simp only [if_true, Bool.not_false]
+      obtain ⟨g1, g2, g3, g4, g5⟩ := commit_out c _ hI
+      simp only [Inv, if_true]
+      constructor
+      · have hc2 : commit (appendAsLiteral (commit c) [34]) = { done := (commit c).done ++ [34], cand := [], seq := [], bucket := [] } := by
+          simp [commit, appendAsLiteral, g3, g4]
+        rw [hc2]
+        refine ⟨closed_append g1 closed_quote_open (by simp), rfl, ?_, by simp⟩
+        simp only [List.append_nil]
+        rw [g1 [34] (by simp), g2, hspec]
+        simp [D, BasicRef.decode]
+      · rw [litAfter_append, hl]; simp [litAfter]
+    · simp only [hq, if_false, Bool.false_eq_true]
+      by_cases hs : isSpecial ch = true
+      · simp only [hs, if_true]
+        obtain ⟨hu, h128, hnq⟩ := special_fixed ch hs
+        simp only [Inv, Bool.false_eq_true, if_false]
+        constructor
+        · have := step_token ch h128 hnq 3 c _ hI (fuel_ok c)
+          rw [hspec]; simp only [hq, if_false, hu]
+          exact invOut_of_commit _ _ this
+        · rw [litAfter_append, hl]; simp [litAfter, hq]
+      · simp only [hs, Bool.false_eq_true, if_false]
+        simp only [Inv, Bool.false_eq_true, if_false]
+        constructor
+        · have := step_token (upperC ch) (upperC_lt ch hch) (upperC_ne_quote ch hq) 3 c _ hI (fuel_ok c)
+          rw [hspec]; simp only [hq, if_false]
+          exact this
+        · rw [litAfter_append, hl]; simp [litAfter, hq]
+  | true =>
+    simp only [Inv, if_true] at h
+    obtain ⟨hI, hl⟩ := h
+    obtain ⟨hd, hcn, ht, hb⟩ := hI
+    have hspec : specUpper false (p ++ [ch]) = specUpper false p ++ [ch] := by
+      rw [C17.spec_append, hl]; simp only [specUpper]; split <;> simp
+    simp only [parseChar]
+    by_cases hq : ch = 34
+    · -- closing quote
+      subst hq
+      simp only [if_true, Bool.not_true]
+      have hnq : 34 ∉ c.bucket := fun hm => (hb 34 hm).2 rfl
+      obtain ⟨hbc, hbd⟩ := closed_lit_text c.bucket hnq
+      have hbh : c.bucket.head? ≠ some 0x8F := by
+        cases hbk : c.bucket with
+        | nil => simp
+        | cons a as => have := (hb a (by rw [hbk]; simp)).1; simp; omega
+      have hc1 : commit c = ⟨c.done ++ c.bucket, [], [], []⟩ := by simp [commit, hcn]
+      have hc2 : appendAsToken ⟨c.done ++ c.bucket, [], [], []⟩ [34] = ⟨c.done ++ c.bucket, [], [34], [34]⟩ := by
+        simp [appendAsToken, appendAsTokenFuel, quote_not_token, empty_not_token]
+      have hc3 : commit ⟨c.done ++ c.bucket, [], [34], [34]⟩ = ⟨c.done ++ c.bucket ++ [34], [], [], []⟩ := by
+        simp [commit]
+      simp only [Inv, Bool.false_eq_true, if_false]
+      rw [hc1, hc2, hc3]
+      have hq34 : Closed true [34] false := closed_lit_char 34
+      have hcl : Closed false (c.done ++ c.bucket ++ [34]) false :=
+        closed_append (closed_append hd hbc hbh) hq34 (by simp)
+      constructor
+      · refine ⟨hcl, ?_, Or.inl rfl, by simp, by simp [decode_nil]⟩
+        simp only [decode_nil, List.append_nil]
+        rw [(closed_append hd hbc hbh) [34] (by simp), hd _ hbh, hbd, decode_lit_char, ht, hspec]
+      · rw [litAfter_append, hl]; simp [litAfter]
+    · -- a character of the literal
+      simp only [hq, if_false, if_true]
+      simp only [Inv, if_true]
+      constructor
+      · refine ⟨hd, hcn, ?_, ?_⟩
+        · simp only [appendAsLiteral]; rw [hspec, ← ht]; simp [List.append_assoc]
+        · intro y hy
+          simp only [appendAsLiteral, List.mem_append, List.mem_singleton] at hy
+          rcases hy with hy | hy
+          · exact hb y hy
+          · subst hy; exact ⟨hch, hq⟩
+      · rw [litAfter_append, hl]; simp [litAfter, hq]
+
+end Moto.C14
+
+namespace Moto.C14
+open Moto Moto.Basic Moto.Spec
+
+theorem fold_inv (rest : Str) : ∀ (st : Ctx × Bool) (p : Str), (∀ ch ∈ rest, ch < 128) → Inv st p →
+    Inv (rest.foldl parseChar st) (p ++ rest) := by
+  induction rest with
+  | nil => intro st p _ h; simpa using h
+  | cons ch cs ih =>
+    intro st p hr h
+    simp only [List.foldl_cons]
+    have := ih (parseChar st ch) (p ++ [ch]) (fun x hx => hr x (by simp [hx])) (parseChar_inv st p ch (hr ch (by simp)) h)
+    simpa [List.append_assoc] using this
+
+/-- **C14 (lossless)**: for every line body over ASCII — whatever its spacing, however keywords,
+    identifiers and digits run together, whatever its quotes — detokenizing the bytes the tokenizer
+    emits gives back the same text, upper-cased outside string literals; literal contents unchanged. -/
+theorem lossless (body : Str) (h : ∀ ch ∈ body, ch < 128) :
+    BasicRef.decode false (encodeBody body) = specUpper false body := by
+  have h0 : Inv (({} : Ctx), false) [] := by
+    simp only [Inv, Bool.false_eq_true, if_false]
+    exact ⟨⟨closed_nil false, by simp [decode_nil, specUpper], Or.inl rfl, by simp, by simp [decode_nil]⟩, rfl⟩
+  have hf := fold_inv body (({} : Ctx), false) [] h h0
+  simp only [List.nil_append] at hf
+  unfold encodeBody
+  generalize body.foldl parseChar (({} : Ctx), false) = st at hf
+  obtain ⟨c, inLit⟩ := st
+  cases inLit with
+  | false =>
+    simp only [Inv, Bool.false_eq_true, if_false] at hf
+    exact (commit_out c _ hf.1).2.1
+  | true =>
+    simp only [Inv, if_true] at hf
+    obtain ⟨⟨hd, hcn, ht, hb⟩, _⟩ := hf
+    have hnq : 34 ∉ c.bucket := fun hm => (hb 34 hm).2 rfl
+    obtain ⟨_, hbd⟩ := closed_lit_text c.bucket hnq
+    have hbh : c.bucket.head? ≠ some 0x8F := by
+      cases hbk : c.bucket with
+      | nil => simp
+      | cons a as => have := (hb a (by rw [hbk]; simp)).1; simp; omega
+    show D false (c.done ++ c.cand ++ c.bucket) = _
+    rw [hcn, List.append_nil, hd _ hbh, hbd]; exact ht
+
+/-- the same for a whole record: the text bytes of a line decode to its body -/
+theorem lossless_line (line : Str) (num : Nat) (body : Str) (hl : extractLineParts line = some (num, body))
+    (h : ∀ ch ∈ body, ch < 128) : BasicRef.decode false (encodeBody body) = specUpper false body := lossless body h
+
+/-- regression witnesses: the inputs that lost text before the repairs -/
+example : BasicRef.decode false (encodeBody (Tape.str "GOTO 10")) = Tape.str "GOTO 10" := by decide
+example : BasicRef.decode false (encodeBody (Tape.str "ONERRORGOTO5")) = Tape.str "ONERRORGOTO5" := by decide
+example : BasicRef.decode false (encodeBody (Tape.str "toto=1:else print\"a:\"else")) = Tape.str "TOTO=1:ELSE PRINT\"a:\"ELSE" := by decide
+example : extractLineParts (Tape.str "60 X=1") = some (60, Tape.str "X=1") := by decide
+
 end Moto.C14
